@@ -160,9 +160,10 @@ func streamPositions(ctx *Ctx) *Result {
 			case 0:
 				toks = append(toks[:k:k], toks[k+1:]...)
 			case 1:
-				toks[k] = []string{")", "}", "=", "and", "var", "@", "12ab", "\"abc"}[r.Intn(8)]
+				toks[k] = []string{")", "}", "=", "and", "var", "@", "12ab", "\"abc", g.lit("str").Text, g.lit("float").Text}[r.Intn(10)]
 			default:
-				toks = append(toks[:k:k], append([]string{[]string{"(", "{", "+", "print", "def"}[r.Intn(5)]}, toks[k:]...)...)
+				// an extra token, also a literal of any spelling: it is then the offending token quoted in the diagnostic
+				toks = append(toks[:k:k], append([]string{[]string{"(", "{", "+", "print", "def", g.lit("str").Text, g.lit("str").Text, g.lit("int").Text}[r.Intn(8)]}, toks[k:]...)...)
 			}
 		}
 		src := (&Layout{r: r, Fancy: r.Intn(2) == 0}).Join(toks)
@@ -372,7 +373,8 @@ func streamLimits(ctx *Ctx) *Result {
 				return "result"
 			}
 			res1, b1, err1 := bcl.Interpret(src, o...)
-			cf := &chunkFile{chunks: randomPartition(rand.New(rand.NewSource(int64(len(src)))), append([]byte(nil), src...), 5, true)}
+			// (every other input hands its last bytes over together with io.EOF, as io.Reader allows)
+			cf := &chunkFile{chunks: randomPartition(rand.New(rand.NewSource(int64(len(src)))), append([]byte(nil), src...), 5, true), eofWithLast: len(src)%2 == 0}
 			res2, b2, err2 := bcl.InterpretFile(cf, o...)
 			if (err1 == nil) != (err2 == nil) || fmtBlocks(res1) != fmtBlocks(res2) || fmtBinding(b1) != fmtBinding(b2) {
 				return fmt.Sprintf("FAIL Interpret and InterpretFile disagree: %v / %v", err1, err2)
@@ -782,6 +784,71 @@ func streamMutants(ctx *Ctx) *Result {
 			return
 		}
 		diffParseRun(res, d, []byte(src), false)
+	})
+	// what is layout and what is not: between two tokens of an accepted sentence exactly the eight
+	// documented characters (space, tab, VT, FF, CR, LF, U+0085, U+00A0) may stand; every other
+	// character that starts no token (control characters, everything beyond ASCII: the other Unicode
+	// spaces, separators, format characters, letters) makes the source a rejected one.  Inside a
+	// comment any of them is harmless.
+	layoutRunes := []rune{' ', '\t', '\v', '\f', '\r', '\n', 0x85, 0xA0}
+	notLayout := []rune{0x00, 0x01, 0x08, 0x0e, 0x1b, 0x1c, 0x1d, 0x1e, 0x1f, 0x7f, 0x80, 0x84, 0x86, 0x9f, 0xa1, 0xad, 0x1680, 0x180e,
+		0x2000, 0x2001, 0x2002, 0x2003, 0x2004, 0x2005, 0x2006, 0x2007, 0x2008, 0x2009, 0x200a, 0x200b, 0x200c, 0x200d, 0x2028, 0x2029,
+		0x202f, 0x205f, 0x2060, 0x3000, 0xfeff, 0xe9, 0x3b1, 0x4e16, 0x1f600, 0xfffd}
+	parallel(ctx.Pool, ctx.Seed+6, ctx.N(500), func(i int, r *rand.Rand, d *Driver) {
+		g := NewGen(r)
+		g.MaxDepth = 1 + r.Intn(2)
+		g.ErrRate = 0
+		g.OneLineStrings = true
+		toks := progToks(g.Program(1+r.Intn(3)), func() bool { return r.Intn(5) == 0 })
+		if len(toks) < 2 {
+			return
+		}
+		base := strings.Join(toks, " ")
+		baseAcc, ok := oracle([]byte(base))
+		if !ok || !baseAcc {
+			return
+		}
+		k := 1 + r.Intn(len(toks)-1) // the boundary before token k
+		var c rune
+		want := false
+		switch r.Intn(5) {
+		case 0:
+			c, want = layoutRunes[r.Intn(len(layoutRunes))], true
+		case 1:
+			c = rune(0x80 + r.Intn(0x2fff)) // anything beyond ASCII …
+			if c == 0x85 || c == 0xa0 {
+				want = true
+			}
+		default:
+			c = notLayout[r.Intn(len(notLayout))]
+		}
+		how := r.Intn(3)
+		var src string
+		switch how {
+		case 0: // in place of the separator
+			src = strings.Join(toks[:k], " ") + string(c) + strings.Join(toks[k:], " ")
+		case 1: // next to a separator
+			src = strings.Join(toks[:k], " ") + " " + string(c) + " " + strings.Join(toks[k:], " ")
+		default: // inside a comment: harmless whatever it is (a line break ends the comment, which is harmless too)
+			src = strings.Join(toks[:k], " ") + " # c" + string(c) + "c\n" + strings.Join(toks[k:], " ")
+			if c != '\n' && c != '\r' {
+				want = true
+			} else {
+				return // the rest of the comment would become program text
+			}
+		}
+		acc, ok := oracle([]byte(src))
+		if !ok {
+			return
+		}
+		res.Count(fmt.Sprintf("layout-char.want=%v", want), 1)
+		res.Nontrivial(src)
+		if acc != want {
+			res.Fail(Failure{Kind: "oracle", Op: "layout character", Input: src, Impl: fmt.Sprintf("accepted=%v", acc),
+				Expected: fmt.Sprintf("accepted=%v: U+%04X %s; layout between tokens is space, tab, VT, FF, CR, LF, U+0085 and U+00A0 and nothing else, and anything may stand in a comment", want, c, map[bool]string{true: "is harmless here", false: "between two tokens is no layout and starts no token"}[want])})
+			return
+		}
+		diffParseRunTok(res, d, []byte(src), false)
 	})
 	return res
 }
